@@ -39,7 +39,7 @@ def host_suites(ctx, rnd, thorough, n_sample=None):
     t0 = time.time()
     hists, total = c10.model_histories(ctx, rnd, n_sample if n_sample is not None else (2500 if thorough else 150))
     ctx.cov["suites"]["export"] = {"tlc_exported_histories": total, "replayed": len(hists)}
-    c10.judge(ctx, "model-histories", c10.replay_histories(hists), t0, own=c10.OWN[ctx.prop])
+    c10.judge(ctx, "model-histories", c10.replay_histories(hists, extra_every=3), t0, own=c10.OWN[ctx.prop])
     t0 = time.time()
     c10.judge(ctx, "api-append-histories", c10.replay_histories(api_histories(rnd, thorough)), t0, own=c10.OWN[ctx.prop])
     t0 = time.time()
